@@ -200,7 +200,7 @@ def install_ble() -> None:
     import aiohomekit.controller.ble.discovery as bd
     import aiohomekit.controller.ble.pairing as bp
 
-    if not isinstance(bp.random, _RandomShim):
+    if not isinstance(getattr(bp, "time", None), _TimeShim):
         bp.random = _RandomShim()
         bp.time = _TimeShim()
         bc.random = _RandomShim()
